@@ -335,6 +335,14 @@ def ex_type_dyn(v):
     return not isinstance(v, int) and not (isinstance(v, str) and len(v) == 1 and False)
 
 
+def vsize(v):
+    if isinstance(v, int):
+        return 1
+    if isinstance(v, str):
+        return len(v) + 1
+    return 1 + sum(vsize(x) for x in v)
+
+
 class RuntimeErr(Exception):
     pass
 
@@ -350,10 +358,12 @@ class Ref:
 
 
 class Interp:
-    def __init__(self, prog, fuel=20000):
+    def __init__(self, prog, fuel=4000):
         self.prog = prog
         self.funs = {f["name"]: f for f in prog["funs"]}
         self.out = []
+        self.out_types = []
+        self.outlen = 0
         self.fuel = fuel
         self.globals = {}
         # facts about aliasing met during the run (used to attribute failures to a known shape)
@@ -416,13 +426,21 @@ class Interp:
 
     def write_lv(self, lv, sc, new):
         s, r, st, vr = self.resolve(lv, sc)
-        self.note_write(s, r, vr)
+        self.note_write(s, r, vr, st)
         dict.__setitem__(s, r, self.set_path(s[r], st, new))
 
-    def note_write(self, scope, root, via_ref):
+    def note_write(self, scope, root, via_ref, steps):
         for frame in self.active:
-            for (ascope, aroot, kind) in frame:
-                if ascope is scope and aroot == root and (kind != "P" or via_ref):
+            for ent in frame:
+                ascope, aroot, kind = ent[0], ent[1], ent[2]
+                if not (ascope is scope and aroot == root):
+                    continue
+                if kind == "R":
+                    # a Referenz to a PART of this variable is alive while the part's container is replaced
+                    rsteps = ent[3]
+                    if len(steps) < len(rsteps) and rsteps[:len(steps)] == steps:
+                        self.shapes.add("D")
+                elif kind != "P" or via_ref:
                     self.shapes.add(kind)
 
     # --- expressions
@@ -436,6 +454,8 @@ class Interp:
             return self.read_lv(e[1], sc)
         if k == "cat":
             a, b = self.ev(e[1], sc), self.ev(e[2], sc)
+            if vsize(a) + vsize(b) > 400:
+                raise OutOfFuel()     # generated programs whose values explode are discarded
             if isinstance(a, str):
                 return a + b
             if isinstance(b, tuple):
@@ -471,14 +491,16 @@ class Interp:
                 s, r, st, _ = self.resolve(a[1], sc)
                 new[pn] = Ref(s, r, st)
                 refroots.append((s, r))
+                if st:
+                    frame.append((s, r, "R", list(st)))
             else:
                 new[pn] = self.ev(a[1], sc)
                 if a[1][0] == "lv" and pt in NONPRIM:
                     s, r, st, _ = self.resolve(a[1][1], sc)
                     frame.append((s, r, "G" if s is self.globals else "L"))
         # same variable by value and by Referenz in one call
-        for (s, r, _) in frame:
-            if any(s is s2 and r == r2 for (s2, r2) in refroots):
+        for ent in frame:
+            if ent[2] != "R" and any(ent[0] is s2 and ent[1] == r2 for (s2, r2) in refroots):
                 self.shapes.add("A")
         # a value parameter of this activation handed on by Referenz (written later => recursion-order shape)
         frame2 = [(new, pn, "P") for (pn, pt, isref) in fd["params"] if not isref and pt in NONPRIM]
@@ -516,6 +538,10 @@ class Interp:
                 self.write_lv(s[1], sc, self.read_lv(s[1], sc) + (v,))
             elif k == "print":
                 self.out.append(show(s[3], self.ev(s[1], sc)))
+                self.out_types.append(s[3])
+                self.outlen += len(self.out[-1])
+                if self.outlen > 20000:
+                    raise OutOfFuel()
             elif k == "call":
                 r = self.call(s[2], s[3], sc)
                 if s[1] is not None:
@@ -589,15 +615,15 @@ def annotate_prints(prog):
 
 
 def reference(prog):
-    """('ok', stdout, shapes) | ('err', stdout-so-far, shapes) | ('fuel',)"""
+    """('ok', stdout, shapes, print-types) | ('err', stdout-so-far, shapes, print-types) | ('fuel',)"""
     p = annotate_prints(prog)
     it = Interp(p)
     try:
         it.run(p["globals"], it.globals)
         it.run(p["main"], it.globals)
-        return ("ok", "".join(it.out), it.shapes)
+        return ("ok", "".join(it.out), it.shapes, it.out_types)
     except RuntimeErr:
-        return ("err", "".join(it.out), it.shapes)
+        return ("err", "".join(it.out), it.shapes, it.out_types)
     except OutOfFuel:
         return ("fuel",)
 
@@ -607,6 +633,36 @@ def reference(prog):
 # ------------------------------------------------------------------------------------------------
 class NotInFragment(Exception):
     pass
+
+
+def model_render(line, types):
+    """one result of the model driver ('OK i:5 s:1,2' | 'ER class') -> ('ok', stdout) | ('er', class) | ('shape',) when
+    the number/kind of outputs does not fit the print types of the reference run"""
+    line = line.strip()
+    if line.startswith("ER"):
+        return ("er", line.split()[1])
+    items = line.split()[1:]
+    if len(items) > len(types):
+        return ("shape",)
+    out = []
+    for it, ty in zip(items, types):
+        kind, _, body = it.partition(":")
+        if kind == "i":
+            if ty == "Z":
+                out.append("%d|" % int(body))
+            elif ty == "B":
+                out.append(chr(int(body)) + "|")
+            else:
+                return ("shape",)
+        else:
+            zs = [int(x) for x in body.split(",")] if body else []
+            if ty == "T":
+                out.append("".join(chr(z) for z in zs) + "|")
+            elif ty == "ZL":
+                out.append("[" + "".join("%d " % z for z in zs) + "]|")
+            else:
+                return ("shape",)
+    return ("ok", "".join(out), len(items))
 
 
 def to_model(prog):
@@ -950,10 +1006,10 @@ def shape_programs(rng):
         # (6) a value parameter handed on by Referenz in a recursive call that is written later in the body
         helpers = {}
         m = mutation_stmts(ty, ("var", "r"), "assign", helpers)
-        f = dict(name="rekursiv", params=[("p", ty, False), ("r", ty, True), ("n", "Z", False)],
-                 body=[("if", V("n"), [("decl", ty, "lokal", lit(ty, FRESH[ty])), ("call", None, "rekursiv", [("val", V("lokal")), ("ref", ("var", "p")), ("val", ("sub", V("n"), ("int", 1)))])], [])] + m, ret=None)
+        f = dict(name="selbstruf", params=[("p", ty, False), ("r", ty, True), ("n", "Z", False)],
+                 body=[("if", V("n"), [("decl", ty, "lokal", lit(ty, FRESH[ty])), ("call", None, "selbstruf", [("val", V("lokal")), ("ref", ("var", "p")), ("val", ("sub", V("n"), ("int", 1)))])], [])] + m, ret=None)
         prog = dict(globals=[("decl", ty, "A", lit(ty, v)), ("decl", ty, "C", lit(ty, v))], funs=[f],
-                    main=[("call", None, "rekursiv", [("val", V("A")), ("ref", ("var", "C")), ("val", ("int", 1))]), ("print", V("A"), "direct"), ("print", V("C"), "direct")])
+                    main=[("call", None, "selbstruf", [("val", V("A")), ("ref", ("var", "C")), ("val", ("int", 1))]), ("print", V("A"), "direct"), ("print", V("C"), "direct")])
         out.append((dict(kind="shape", shape="value parameter passed on by Referenz in a recursive call", ty=ty, mutation="assign"), prog))
     # (7) a part of the variable by Referenz, the whole by value
     f = dict(name="teil", params=[("p", "D", False), ("r", "ZL", True)],
@@ -1037,7 +1093,10 @@ class RandGen:
                 continue
             form = r.choice(["assign", "assign", "index", "compound", "field", "refcall"])
             if form == "assign":
-                return [("asg", lv, self.expr(vt, ty))]
+                e = self.expr(vt, ty)
+                if e == ("lv", lv) and r.random() < 0.95:
+                    e = lit(ty, rnd_val(r, ty))
+                return [("asg", lv, e)]
             if form == "index":
                 i = ("int", r.randint(1, 2))
                 if ty == "T":
